@@ -813,7 +813,7 @@ func runSystem(a *args) error {
 	for i := 0; i < n; i++ {
 		// one random stream per scenario, derived from (seed, index): scenario i can be re-run alone (-only i)
 		r = rand.New(rand.NewSource(a.seed*1000003 + int64(i)))
-		if a.only >= 0 && i != a.only {
+		if (a.only >= 0 && i != a.only) || i%a.shardN != a.shardK {
 			continue
 		}
 		if want == "faults" {
